@@ -1,7 +1,100 @@
-"""Counterexample hunter (DESIGN 3.4): native replay crate over the real sources.  Filled in per property."""
+"""Counterexample hunter (DESIGN 3.4): builds the native replay crate from /repo's current sources and looks for a
+concrete input on which the real code disagrees with a rules-level transcription.  Never the deciding step."""
+import json, os, shutil, subprocess, time
 
-def hunt(prop, failure, tier, seed, work):
+from .driver import VERIF, REPO, log
+
+_built = {}
+
+ACCESS = {'uci.rs': 'access_uci.rs'}
+
+
+def build(work):
+    """-> path of the hunter binary, or None when the scratch crate does not build"""
+    if work in _built:
+        return _built[work]
+    t0 = time.time()
+    d = os.path.join(work, 'replaycrate')
+    shutil.rmtree(d, ignore_errors=True)
+    os.makedirs(os.path.join(d, 'src'))
+    os.makedirs(os.path.join(d, 'hunter'))
+    tpl = os.path.join(VERIF, 'replay')
+    for f in os.listdir(os.path.join(REPO, 'src')):
+        if f.endswith('.rs') and f != 'main.rs':
+            s = open(os.path.join(REPO, 'src', f)).read()
+            if f in ACCESS:
+                s += open(os.path.join(tpl, ACCESS[f])).read()
+            open(os.path.join(d, 'src', f), 'w').write(s)
+    shutil.copy(os.path.join(tpl, 'lib.rs'), os.path.join(d, 'src', 'lib.rs'))
+    shutil.copy(os.path.join(tpl, 'Cargo.toml'), os.path.join(d, 'Cargo.toml'))
+    shutil.copy(os.path.join(REPO, 'Cargo.lock'), os.path.join(d, 'Cargo.lock'))
+    for f in ('hunter.rs', 'oracle.rs'):
+        shutil.copy(os.path.join(tpl, f), os.path.join(d, 'hunter', f))
+    env = dict(os.environ); env['CARGO_NET_OFFLINE'] = 'true'; env['CARGO_TARGET_DIR'] = os.path.join(d, 'target')
+    env.setdefault('RUSTFLAGS', '-Awarnings')
+    p = subprocess.run(['cargo', 'build', '--release', '--offline', '--bin', 'hunter'], cwd=d, capture_output=True, text=True, env=env)
+    if p.returncode != 0:
+        # the lock file of the repository lists more packages than this crate uses; let cargo prune it
+        os.remove(os.path.join(d, 'Cargo.lock'))
+        p = subprocess.run(['cargo', 'build', '--release', '--offline', '--bin', 'hunter'], cwd=d, capture_output=True, text=True, env=env)
+    if p.returncode != 0:
+        log('hunter: replay crate does not build (%s)' % p.stderr[-800:])
+        _built[work] = None
+        return None
+    log('hunter: replay crate built in %.0fs' % (time.time() - t0))
+    _built[work] = os.path.join(d, 'target', 'release', 'hunter')
+    return _built[work]
+
+
+def _parse(out):
+    for l in out.splitlines():
+        if l.startswith('CASE '):
+            try:
+                return json.loads(l[5:])
+            except Exception:
+                return {'raw': l[5:]}
     return None
 
+
+def hunt(prop, failure, tier, seed, work, budget=None, mode='hunt', focus=''):
+    exe = build(work)
+    if exe is None:
+        return None
+    if budget is None:
+        budget = 20 if tier == 'quick' else 300
+    try:
+        p = subprocess.run([exe, mode, prop, str(seed), str(budget)] + ([focus] if focus else []), capture_output=True, text=True, timeout=budget + 600)
+    except subprocess.TimeoutExpired:
+        return None
+    case = _parse(p.stdout)
+    if case is not None:
+        case['found_by'] = 'hunter %s %s seed=%d budget=%ss' % (mode, prop, seed, budget)
+        log('hunter: failing input: %s' % json.dumps(case)[:400])
+    else:
+        log('hunter: no failing input in budget (%s)' % p.stdout.strip()[-200:])
+    return case
+
+
+def cross(prop, seed, work, budget):
+    """thorough tier on the unchanged tree: the transcription must agree with the (just verified) code everywhere it looks"""
+    exe = build(work)
+    if exe is None:
+        return {'status': 'not-built'}
+    p = subprocess.run([exe, 'cross', prop, str(seed), str(budget)], capture_output=True, text=True, timeout=budget + 600)
+    out = {'status': 'agree', 'stdout': p.stdout.strip()[-400:]}
+    case = _parse(p.stdout)
+    if case is not None:
+        out['status'] = 'disagree'
+        out['case'] = case
+    return out
+
+
 def replay_case(prop, case, work):
-    return True
+    exe = build(work)
+    if exe is None:
+        log('replay: crate does not build')
+        return True
+    js = json.dumps(case, separators=(',', ':'))
+    p = subprocess.run([exe, 'replay', prop, js], capture_output=True, text=True, timeout=600)
+    log('replay: ' + p.stdout.strip()[-400:])
+    return p.returncode != 0
